@@ -262,7 +262,7 @@ impl Sectors {
         //# C13.sectors_new
         r.sz() == size && r.loaded() == data@ && ((size == 64 || size == 512 || size == 4096) ==> r.wf()),
 //@@ end
-//@@ fn src/cfb.rs Sectors::get props=C13,C20 entry ret=res
+//@@ fn src/cfb.rs Sectors::get props=C13,C20,C02,C18 entry ret=res
 //@@ sig
     requires
         old(self).wf(),
